@@ -827,8 +827,9 @@ def gen_recipe(rng, extra_p=0.5):
 _ENV_CLASSES: dict = {}
 
 
-def build_env(recipe, loader=None, delims=None):
-    """Create a fresh Environment (an ad-hoc subclass carrying flags/limits)."""
+def build_env(recipe, loader=None, delims=None, subclass=None):
+    """Create a fresh Environment (an ad-hoc subclass carrying flags/limits).  `subclass`, if
+    given, maps that class to the class actually instantiated (fault injection into construction)."""
     import liquid
     from liquid import Environment, Mode
 
@@ -843,6 +844,8 @@ def build_env(recipe, loader=None, delims=None):
     cls = _ENV_CLASSES.get(key)
     if cls is None:
         cls = _ENV_CLASSES[key] = type("SimEnvironment", (Environment,), attrs)
+    if subclass is not None:
+        cls = subclass(cls)
     d = delims or DEFAULT_DELIMS
     kw = {}
     if recipe["template_comments"]:
